@@ -447,7 +447,8 @@ def _dedup(inp: Iterable[T]) -> Iterable[T]:
 
 
 def _create_norm_literal(args: Iterable):
-    dedup_args = tuple(_dedup(args))
+    # ``0 == False`` and ``1 == True``, so deduplication must take the type into account
+    dedup_args = tuple(arg for _, arg in _dedup((type(arg), arg) for arg in args))
     return _LiteralNormType(
         dedup_args,
         source=Literal[dedup_args],
